@@ -8,6 +8,7 @@ package main
 // is only a candidate (the full quantified query is then also tried, and counterexamples are replayed).
 
 import (
+	"os"
 	"fmt"
 	"math/big"
 	"strings"
@@ -80,6 +81,7 @@ type idxPattern struct {
 	arr  *Sort // sort of the indexed array
 	root []*Term
 	mul  *Term // index is base + var*mul (mul a constant) when non-nil
+	app  string // non-empty: the bound variable (plus base) is the last argument of this uninterpreted function
 }
 
 // arrayRoots: the base arrays below store chains / ite merges of an array term.
@@ -133,6 +135,18 @@ func collectPatterns(body *Term, b *Term) []idxPattern {
 				}
 			}
 		}
+		if t.Op == "app" && len(t.Args) >= 1 && appPatternName(t.Name) {
+			last := t.Args[len(t.Args)-1]
+			if last == b {
+				out = append(out, idxPattern{app: t.Name})
+			} else if last.Op == "bvadd" && len(last.Args) == 2 {
+				if last.Args[1] == b && !containsVar(last.Args[0], b) {
+					out = append(out, idxPattern{app: t.Name, base: last.Args[0]})
+				} else if last.Args[0] == b && !containsVar(last.Args[1], b) {
+					out = append(out, idxPattern{app: t.Name, base: last.Args[1]})
+				}
+			}
+		}
 		for _, a := range t.Args {
 			rec(a)
 		}
@@ -140,6 +154,9 @@ func collectPatterns(body *Term, b *Term) []idxPattern {
 	rec(body)
 	return out
 }
+
+// appPatternName: uninterpreted functions whose last argument is a position (instantiation triggers).
+func appPatternName(n string) bool { return n == "stream" }
 
 func containsVar(t, v *Term) bool {
 	seen := map[*Term]bool{}
@@ -183,6 +200,7 @@ func containsBound(t *Term, memo map[*Term]bool) bool {
 type groundIdx struct {
 	byRoot map[*Term][]*Term
 	bySort map[*Sort][]*Term
+	byApp  map[string][]*Term // last arguments of ground applications of position-indexed uninterpreted functions
 	byTag  map[string][]*Term // region terms c with a fact (= (rtype c) TAG) somewhere in the query, keyed by TAG
 }
 
@@ -202,9 +220,10 @@ func rtypeFact(t *Term) (*Term, *Term) {
 }
 
 func groundIndexTerms(asserts []*Term) *groundIdx {
-	out := &groundIdx{byRoot: map[*Term][]*Term{}, bySort: map[*Sort][]*Term{}, byTag: map[string][]*Term{}}
+	out := &groundIdx{byRoot: map[*Term][]*Term{}, bySort: map[*Sort][]*Term{}, byTag: map[string][]*Term{}, byApp: map[string][]*Term{}}
 	seen := map[*Term]bool{}
 	haveT := map[string]bool{}
+	haveA := map[string]bool{}
 	type hk struct {
 		t *Term
 		s *Sort
@@ -226,6 +245,13 @@ func groundIndexTerms(asserts []*Term) *groundIdx {
 			if !haveT[k+"|"+fmt.Sprint(c.id)] {
 				haveT[k+"|"+fmt.Sprint(c.id)] = true
 				out.byTag[k] = append(out.byTag[k], c)
+			}
+		}
+		if t.Op == "app" && len(t.Args) >= 1 && appPatternName(t.Name) {
+			last := t.Args[len(t.Args)-1]
+			if !containsBound(last, bm) && !haveA[t.Name+"|"+fmt.Sprint(last.id)] {
+				haveA[t.Name+"|"+fmt.Sprint(last.id)] = true
+				out.byApp[t.Name] = append(out.byApp[t.Name], last)
 			}
 		}
 		if (t.Op == "select" || t.Op == "store") && len(t.Args) >= 2 {
@@ -306,12 +332,17 @@ func (f *TF) instantiate(t *Term, pos bool, qm map[*Term]bool, ground *groundIdx
 				add(c)
 			}
 			pats = nil
+			*left = true // instances at regions whose type is not syntactically known are omitted: a model of the ground query proves nothing
 		}
 		// first pass: indices used on arrays with the same root as the pattern's array; second pass: same array sort
 		for pass := 0; pass < 2; pass++ {
 			for _, p := range pats {
 				var gs []*Term
-				if pass == 0 {
+				if p.app != "" {
+					if pass == 0 {
+						gs = ground.byApp[p.app]
+					}
+				} else if pass == 0 {
 					for _, r := range p.root {
 						gs = append(gs, ground.byRoot[r]...)
 					}
@@ -348,6 +379,28 @@ func (f *TF) instantiate(t *Term, pos bool, qm map[*Term]bool, ground *groundIdx
 			if len(order) >= f.maxInst {
 				break
 			}
+		}
+		if os.Getenv("VGO_DEBUG_INST") == "2" && len(order) == 0 {
+			for _, p := range pats {
+				n0, n1 := 0, 0
+				for _, r := range p.root {
+					n0 += len(ground.byRoot[r])
+				}
+				if p.arr != nil {
+					n1 = len(ground.bySort[p.arr])
+				}
+				fmt.Fprintf(os.Stderr, "  PAT base=%v mul=%v roots=%d byRoot=%d bySort=%d arr=%v\n", p.base != nil, p.mul != nil, len(p.root), n0, n1, p.arr)
+				if p.arr != nil {
+					for i, g := range ground.bySort[p.arr] {
+						if i < 4 {
+							fmt.Fprintf(os.Stderr, "     g=%s  sub=%s\n", f.Show(g), f.Show(f.Sub(g, p.base)))
+						}
+					}
+				}
+			}
+		}
+		if os.Getenv("VGO_DEBUG_INST") != "" {
+			fmt.Fprintf(os.Stderr, "INST bound=%s maxInst=%d cands=%d pats=%d skolems=%d\n", b.Name, f.maxInst, len(order), len(pats), len(skolems))
 		}
 		if len(order) > f.maxInst {
 			order = order[:f.maxInst]
@@ -402,7 +455,10 @@ func (f *TF) groundQuery(asserts []*Term) (out []*Term, instantiated bool, remai
 		}
 		seen[t] = true
 		if t.Op == "forall" || t.Op == "exists" {
-			nq++
+			// frames guarded by a region type are instantiated at the few regions of that type only: they do not share the budget
+			if !(len(t.Bound) == 1 && guardTag(t.Args[0], t.Bound[0]) != nil) {
+				nq++
+			}
 		}
 		for _, a := range t.Args {
 			cnt(a, seen)
